@@ -506,19 +506,18 @@ func (v *verif) accesses() []access {
 				return true
 			}
 			ac := access{e: x, kind: "other", desc: src(x)}
-			if _, assembled := v.shiftApplied(x); assembled { // one byte of an integer put together with << and |
-				a, b, ok := v.lin(x.Index, 0)
-				a, b = a+base.la, b+base.lb
-				switch {
-				case !ok:
-					ac.kind = "unknown"
-				case a == 1 && b == -10:
-					ac.kind = "ver-lo"
-				case a == 1 && b == -9:
-					ac.kind = "ver-hi"
-				default:
-					ac.kind, ac.desc = "bad", fmt.Sprintf("version byte %s = d[%s]", src(x), offs(a, b))
-				}
+			a, b, ok := v.lin(x.Index, 0)
+			a, b = a+base.la, b+base.lb
+			_, assembled := v.shiftApplied(x) // one byte of an integer put together with << and |
+			switch {
+			case ok && a == 1 && b == -10: // a byte of the 2-byte version field, however it is used
+				ac.kind = "ver-lo"
+			case ok && a == 1 && b == -9:
+				ac.kind = "ver-hi"
+			case assembled && !ok:
+				ac.kind = "unknown"
+			case assembled:
+				ac.kind, ac.desc = "bad", fmt.Sprintf("version byte %s = d[%s]", src(x), offs(a, b))
 			}
 			out = append(out, ac)
 		case *ast.SliceExpr:
@@ -691,6 +690,33 @@ func verifier(e *env, fn *core.Fn) {
 		} else {
 			c.Check("R3.verify", key("version-le16"), kinds["ver-lo"][0].e.Pos(), lo == 0 && hi == 8,
 				fmt.Sprintf("the version is d[len-10] | d[len-9]<<8 (little-endian); found shifts %d and %d: versions are mis-read and supported payloads rejected", lo, hi))
+		}
+	case len(kinds["ver-lo"]) > 0 || len(kinds["ver-hi"]) > 0:
+		// exactly one byte of the version field is read: located and wrong when that
+		// byte is what gets compared as "the version"
+		one := append(append([]access{}, kinds["ver-lo"]...), kinds["ver-hi"]...)[0]
+		compared := false
+		ast.Inspect(fn.Decl.Body, func(n ast.Node) bool {
+			if be, ok := n.(*ast.BinaryExpr); ok {
+				switch be.Op {
+				case token.EQL, token.NEQ, token.LSS, token.GTR, token.LEQ, token.GEQ:
+					for _, side := range []ast.Expr{be.X, be.Y} {
+						ast.Inspect(origin(info, fn.Decl.Body, side), func(m ast.Node) bool {
+							if m == ast.Node(one.e) {
+								compared = true
+							}
+							return true
+						})
+					}
+				}
+			}
+			return true
+		})
+		if compared {
+			c.Check("R3.verify", key("version-le16"), one.e.Pos(), false,
+				fmt.Sprintf("the trailer version is the 16-bit little-endian value of d[len-10] and d[len-9], but only %s is read and compared: the other byte is ignored, so e.g. version bytes 06 01 (262) are taken for 6 and a version above the supported one is accepted", one.desc))
+		} else {
+			c.Undecidedf("R3.verify", key("version-le16"), one.e.Pos(), "only one byte of the version field is read (%s) and it is not visibly compared", one.desc)
 		}
 	default:
 		c.Undecidedf("R3.verify", key("version-le16"), fn.Decl.Pos(), "version bytes are not read")
